@@ -13,13 +13,17 @@ func init() {
 			"(R22.2) success is reported only after the broken ordered keys and the filtered-out / superseded operations were handed to the removal routines; " +
 			"(R22.3) the removal buffers grow by append (no indexed store beyond a fixed length); " +
 			"(R22.4) SetOperation writes only when the operation key does not exist yet (idempotence), test and write in one exclusive section of the pool's set lock; " +
-			"(R22.5) for a fact found again the superseded entry's operation (not the newly selected one) is queued for removal, the entry is cut out of the collected list and every remembered position above it is shifted down.",
+			"(R22.5) for a fact found again the superseded entry's operation (not the newly selected one) is queued for removal, the entry is cut out of the collected list and every remembered position above it is shifted down.; (R22.k) every leveldb key builder carries each of its parameters in full under its own prefix constant; (R22.j) jobs handed to a worker read only captured variables that the submitter does not assign again (no job works on a later batch/slot than the one it was created for)",
 		NotDecided: "that the leveldb iteration order is insertion order ('most recently added'); the removal routines' own batching; cache coherence of the operation cache.",
 		Run:        runC22,
 	})
 }
 
 func runC22(c *Ctx) {
+	c.Rule("R22.j", "AsyncCapture")
+	c.AsyncCaptures(c.Need("isaac/database.(*TempPool).setRemoveNewOperations"), "*.NewJob", 1)
+	c.Rule("R22.k", "KeyTable")
+	keyBuilderRules(c)
 	parent := c.Need("isaac/database.(*TempPool).OperationHashes")
 	if parent == nil {
 		return
